@@ -6,7 +6,7 @@
     for the EVM run is not executable (never produced by the harness; refused by the checker). *)
 From Coq Require Import List Bool Arith ZArith.
 Import ListNotations.
-Require Import Nib.C05.Model Nib.C05.Spec Nib.C05.Facts Nib.C05.Proofs Nib.C05.ProofsBundle.
+Require Import Nib.C05.Model Nib.C05.Spec Nib.C05.Facts Nib.C05.Proofs Nib.C05.ProofsBundle Nib.C05.ProofsNonvacuous.
 Open Scope Z_scope.
 
 (** Fee arithmetic, all prices and limits: what the signer ends up paying (prepay - refund, both
@@ -97,6 +97,23 @@ Print Assumptions C05_bundle_satisfies_PB.
 Theorem C05_bundle_checker_sound : forall m, PBb m = true -> PB m.
 Proof. exact PBb_sound. Qed.
 Print Assumptions C05_bundle_checker_sound.
+
+(** NibiruBankKeeper.SyncStateDBWithAccount, as long as it mirrors addresses that are not 20 bytes long into the
+    StateDB account of their last 20 bytes ([deliver_cur] with a non-empty [trunc]), REFUTES the property: a plain
+    user tx (EOA calls the wasm precompile `execute` with unibi funds for a wasm contract) increases the supply.
+    The theorems above are about [deliver] = [deliver_cur []], the behaviour with the mirror restricted to 20-byte
+    addresses; the regenerated fact k_sync_only_evm_addresses says which of the two the code implements. *)
+Theorem C05_truncating_sync_refuted :
+  exists e b t trunc, env_wf e /\ nonneg (bal b) /\ tx_wf e t /\
+    snd (deliver_cur trunc e b t) = Ok /\ supply (fst (deliver_cur trunc e b t)) > supply b /\
+    Pb (mk e b t (snd (deliver_cur trunc e b t)) (fst (deliver_cur trunc e b t))) = false.
+Proof. exact truncating_sync_refuted. Qed.
+Print Assumptions C05_truncating_sync_refuted.
+
+Theorem C05_repaired_sync_is_deliver :
+  forall e b t, snd (deliver e b t) <> Stuck -> deliver_cur [] e b t = deliver e b t.
+Proof. exact deliver_cur_repaired. Qed.
+Print Assumptions C05_repaired_sync_is_deliver.
 
 (** The boolean checker evaluated on implementation measurements is sound for [P]. *)
 Theorem C05_checker_sound : forall m, Pb m = true -> P m.
